@@ -1402,7 +1402,9 @@ class SptenmatOps(Family):
                 "C06_sptenmat_setitem_repeated_counterexample", "C06_wf_sptenmat_nnz", "C06_perm_sptenmat_nnz",
                 "C06_wf_sptenmat_norm", "C06_perm_sptenmat_norm", "C06_wf_sptenmat_double", "C06_perm_sptenmat_double",
                 "C06_wf_sptenmat_full", "C06_perm_sptenmat_full", "C06_wf_sptenmat_to_sptensor",
-                "C06_perm_sptenmat_to_sptensor", "C06_sptenmat_isequal_iff", "C06_perm_sptenmat_isequal_counterexample")
+                "C06_perm_sptenmat_to_sptensor", "C06_sptenmat_isequal_iff", "C06_perm_sptenmat_isequal_counterexample",
+                "C06_perm_sptenmat_copy_literal", "C06_perm_sptenmat_neg_literal", "C06_perm_sptenmat_isequal_canonical",
+                "C06_perm_sptenmat_setitem_appended")
 
     # ------------------------------------------------------------------ generation
     def gen(self, rng, tier):
@@ -1640,6 +1642,11 @@ class SptenmatOps(Family):
                 return Verdict("violation", f"{where}: not isequal to an identical object", None, None, None, tags)
             # across orders
             d = {k: denote(res[k]["ok"]) for k in ("copy", "neg", "to_sptensor")}
+            d["copy-stored"] = stored(res["copy"]["ok"])      # sorted by np.unique: literally the same for every order
+            d["neg-stored"] = stored(res["neg"]["ok"])
+            d["copies-isequal"] = bool(res["copy"]["ok"].isequal(res["pos"]["ok"]))
+            if not d["copies-isequal"]:
+                return Verdict("violation", f"{where}: M.copy() and +M are not isequal", d, None, None, tags)
             if not first:
                 first = d
             elif not deep_eq(d, first):
@@ -1701,9 +1708,12 @@ class SptenmatOps(Family):
         # the specification on the dense matrix
         D = spm_dense(c, c["ent"])
         spec, Ds, stored_now = [], [], {tuple(x) for x in c["ent"]["subs"]}
+        appended, app = [], False
         for st in c["steps"]:
             w = spm_spec_step(D, st["key"], st["val"])
             spec.append(w)
+            app = app or (w is not None and any((i, j) not in stored_now for i, j, _ in w))
+            appended.append(app)       # a pair was appended by now: the triples were re-sorted
             if w is not None:
                 cells = [(i, j) for i, j, _ in w]
                 hit = [x in stored_now for x in cells]
@@ -1757,7 +1767,8 @@ class SptenmatOps(Family):
                                   "the matrix before", st["after"], jval(Dk)))
                 if "ok" not in mk_ or not deep_eq(st["after"], mk_["ok"]):
                     other.append(("corr", f"sptenmat.__setitem__: {where}: stored form differs from the model's", st["after"], mk_))
-            d = [(st["accepted"], sorted_entries(st["after"]["subs"], st["after"]["vals"])) for st in steps]
+            d = [(st["accepted"], sorted_entries(st["after"]["subs"], st["after"]["vals"]),
+                  (st["after"]["subs"], st["after"]["vals"]) if ap and klass != "repeat" else None) for st, ap in zip(steps, appended)]
             if first is None:
                 first = d
             elif d != first:
